@@ -28,7 +28,7 @@ use crate::irenc;
 use crate::irenc::mk_tid;
 use crate::out::{catch, Out};
 use crate::rng::Rng;
-use cwe_checker_lib::abstract_domain::{IntervalDomain, TryToBitvec};
+use cwe_checker_lib::abstract_domain::{AbstractDomain, IntervalDomain, TryToBitvec};
 use cwe_checker_lib::analysis::pointer_inference::{Data, State as PiState};
 use cwe_checker_lib::intermediate_representation::*;
 use cwe_checker_lib::utils::arguments::{calculate_parameter_locations, get_variable_parameters};
@@ -293,6 +293,14 @@ pub fn exec(input: &Input) -> (Value, bool) {
             Some(IntervalDomain::new(ptr_bv.clone(), end).into())
         }
         "stackptr" => Some(state.get_register(sp)),
+        // the constant OR a stack address (e.g. after a merge of two paths): not a constant pointer
+        "mixed" => Some(Data::from(ptr_bv.clone()).merge(&state.get_register(sp))),
+        // the constant with the "may also be anything" flag
+        "maybetop" => {
+            let mut d = Data::from(ptr_bv.clone());
+            d.set_contains_top_flag();
+            Some(d)
+        }
         _ => None, // "top": nothing known about the parameter
     };
     if let (Some(param), Some(value)) = (input.symbol.parameters.get(input.fmt_index), value) {
@@ -510,7 +518,9 @@ fn random_fmt(rng: &mut Rng) -> Input {
     let str_off = bytes.len() as u64;
     bytes.extend_from_slice(text.as_bytes());
     // how the pointer / the string are arranged
-    let plan = match rng.below(20) { 0 => "top", 1 => "interval", 2 => "stackptr", 3 => "unmapped", 4 => "nonul", 5 => "badindex", _ => "const" };
+    let plan = match rng.below(22) { 0 => "top", 1 => "interval", 2 => "stackptr", 3 => "unmapped", 4 => "nonul", 5 => "badindex", 6 => "mixed", 7 => "maybetop", _ => "const" };
+    // "nonul" needs a non-empty string (an empty one would put the pointer behind the segment)
+    let plan = if plan == "nonul" && text.is_empty() { "const" } else { plan };
     if plan != "nonul" {
         bytes.push(0);
         let na = rng.below(16);
@@ -534,7 +544,7 @@ fn random_fmt(rng: &mut Rng) -> Input {
     let image = RuntimeMemoryImage { memory_segments: segs, is_little_endian: rng.chance(3, 4), is_lkm: false };
     let ptr_addr = if plan == "unmapped" { base + 0x4000 + rng.below(64) } else { base + str_off };
     let fmt_index = if plan == "badindex" { k + rng.below(2) as usize } else { rng.below(k as u64) as usize };
-    let ptr_plan = match plan { "top" | "interval" | "stackptr" => plan, _ => "const" };
+    let ptr_plan = match plan { "top" | "interval" | "stackptr" | "mixed" | "maybetop" => plan, _ => "const" };
     let sizes = random_sizes(rng, s.ptr);
     let project = mk_project(&s.arch, &s.sp, s.cconvs, sizes, image, &s.symbol);
     Input { src: "gen".into(), mode: "fmt".into(), project, symbol: s.symbol, args: vec![], fmt_index, ptr_plan: ptr_plan.to_string(), ptr_addr,
